@@ -272,7 +272,7 @@ func evaluate(srv *pvpeg.Server, pigeon, dir string, seed int64, i int, av pvpeg
 		has[fl[0]] = true
 	}
 	for _, fl := range []string{"-cache", "-no-recover", "-nolint", "-optimize-basic-latin", "-optimize-grammar", "-optimize-parser", "-support-left-recursion", "-x"} {
-		if r.Intn(4) == 0 {
+		if r.Intn(4) == 0 || (fl == "-optimize-grammar" && r.Intn(4) == 0) {
 			if fl == "-optimize-grammar" && !av.OptThrow && (f.throws || f.undefined || strings.Contains(it.text, "%{") || strings.Contains(it.text, "//{")) {
 				continue // D13
 			}
